@@ -65,7 +65,7 @@ def main():
             problems.append({'kind': 'broken-obligation', 'stage': 'S1-proof', 'detail': out[-3000:]})
 
     # ---- S2 audit
-    forb = common.grep_forbidden()
+    forb = common.grep_forbidden(mod.LEAN_MODULES)
     if forb:
         problems.append({'kind': 'broken-obligation', 'stage': 'S2-audit',
                          'detail': 'forbidden construct in Lean sources', 'hits': forb[:20]})
